@@ -130,11 +130,11 @@ Section Gate.
         accepts over exactly the signed message *)
 
   (** the value the oracle is asked about: the sslib "sig" field, or for OpenPGP signatures the
-      pair signature:other_headers (both are covered by the cryptographic check) *)
+      pair [gpg_sig_value signature other_headers] (both are covered by the cryptographic check) *)
   Definition sig_value_of (sig : json) (sval : str) : Prop :=
     jstr_of (jget S_sig sig) = Some sval \/
     exists sv hdr, jstr_of (jget S_signature sig) = Some sv /\
-                   jstr_of (jget S_other_headers sig) = Some hdr /\ sval = sv ++ 58%N :: hdr.
+                   jstr_of (jget S_other_headers sig) = Some hdr /\ sval = gpg_sig_value sv hdr.
 
   (** the oracle itself said yes, for a listed signature, over the signed message *)
   Definition oracle_accepts (md : metadata) (key : json) : Prop :=
@@ -160,23 +160,53 @@ Section Gate.
     inversion H as [Hs]. exists kid, pub, sval. repeat split; assumption.
   Qed.
 
+  Lemma gpg_schema_headers : forall sig,
+    gpg_sig_schema_ok sig = true -> exists oh, jget S_other_headers sig = Some (JStr oh).
+  Proof.
+    intros sig H. unfold gpg_sig_schema_ok in H.
+    destruct (jget S_keyid sig) as [[| | | |k| |]|]; try discriminate H.
+    destruct (jget S_signature sig) as [[| | | |v| |]|]; try discriminate H.
+    destruct (jget S_other_headers sig) as [[| | | |oh| |]|]; try discriminate H.
+    exists oh. reflexivity.
+  Qed.
+
+  (** a successful OpenPGP check: token, signature value pair, and the verdict on any other message *)
+  Lemma gpg_verify_other_msg : forall sig key m,
+    gpg_verify sig_ok now_s sig key m = Ok true ->
+    exists tok sv hdr,
+      jstr_of (jget S_signature sig) = Some sv /\ jstr_of (jget S_other_headers sig) = Some hdr /\
+      sig_ok tok m (gpg_sig_value sv hdr) = true /\
+      forall m', gpg_verify sig_ok now_s sig key m' = Ok (sig_ok tok m' (gpg_sig_value sv hdr)).
+  Proof.
+    intros sig key m H. unfold gpg_verify in *.
+    destruct (jstr_of (jget S_keyid sig)) as [skid|]; [|discriminate H].
+    destruct (jstr_of (jget S_keyid key)) as [mkid|]; [|discriminate H].
+    destruct (jstr_of (jget S_signature sig)) as [sv|]; [|discriminate H].
+    destruct (gpg_sig_schema_ok sig) eqn:Hschema; cbn [negb] in *; [|discriminate H].
+    destruct (gpg_schema_headers sig Hschema) as [oh Hoh]. rewrite Hoh in *.
+    match type of H with context [sig_ok (fst ?x) _ _] => set (sel := x) in * end.
+    exists (fst sel), sv, oh. split; [reflexivity|]. split; [unfold jstr_of; reflexivity|].
+    destruct (Nat.even (length oh)).
+    - destruct (jget S_creation_time (snd sel)) as [[| |c| | | |]|];
+        try (injection H as Hv; split; [exact Hv|intro m'; reflexivity]).
+      destruct (jget S_validity_period (snd sel)) as [[| |v| | | |]|];
+        try (injection H as Hv; split; [exact Hv|intro m'; reflexivity]).
+      match type of H with (if ?c then _ else _) = _ => destruct c end; [discriminate H|].
+      injection H as Hv. split; [exact Hv|intro m'; reflexivity].
+    - exfalso.
+      destruct (jget S_creation_time (snd sel)) as [[| |c| | | |]|]; try discriminate H.
+      destruct (jget S_validity_period (snd sel)) as [[| |v| | | |]|]; try discriminate H.
+      match type of H with (if ?c then _ else _) = _ => destruct c end; discriminate H.
+  Qed.
+
   Lemma gpg_verify_true : forall sig key msg,
     gpg_verify sig_ok now_s sig key msg = Ok true ->
     exists tok sv hdr, jstr_of (jget S_signature sig) = Some sv /\
                        jstr_of (jget S_other_headers sig) = Some hdr /\
-                       sig_ok tok msg (sv ++ 58%N :: hdr) = true.
+                       sig_ok tok msg (gpg_sig_value sv hdr) = true.
   Proof.
-    intros sig key msg H. unfold gpg_verify in H.
-    destruct (jstr_of (jget S_keyid sig)) as [skid|]; [|discriminate H].
-    destruct (jstr_of (jget S_keyid key)) as [mkid|]; [|discriminate H].
-    destruct (jstr_of (jget S_signature sig)) as [sv|] eqn:E3; [|discriminate H].
-    destruct (jstr_of (jget S_other_headers sig)) as [hdr|] eqn:E4; [|discriminate H].
-    match type of H with context [sig_ok (fst ?s) _ _] => set (sel := s) in * end.
-    exists (fst sel), sv, hdr. split; [reflexivity|]. split; [reflexivity|].
-    destruct (jget S_creation_time (snd sel)) as [[]|]; try (inversion H; reflexivity);
-      destruct (jget S_validity_period (snd sel)) as [[]|]; try (inversion H; reflexivity).
-    match type of H with (if ?c then _ else _) = _ => destruct c end; [discriminate H|].
-    inversion H; reflexivity.
+    intros sig key msg H. destruct (gpg_verify_other_msg _ _ _ H) as [tok [sv [hdr [H1 [H2 [H3 _]]]]]].
+    exists tok, sv, hdr. repeat split; assumption.
   Qed.
 
   Lemma vsig_carries : forall md key, vsig md key = Ok tt -> carries_valid_sig md key.
@@ -226,7 +256,7 @@ Section Gate.
     - apply sslib_verify_true in H. destruct H as [kid [pub [sval [_ [_ [Hs Hok]]]]]].
       exists sig, msg, pub, sval. repeat split; try assumption. left. exact Hs.
     - apply gpg_verify_true in H. destruct H as [tok [sv [hdr [Hs [Hh Hok]]]]].
-      exists sig, msg, tok, (sv ++ 58%N :: hdr). repeat split; try assumption.
+      exists sig, msg, tok, (gpg_sig_value sv hdr). repeat split; try assumption.
       right. exists sv, hdr. repeat split; assumption.
   Qed.
 
@@ -409,26 +439,6 @@ Section Gate.
     injection H as Hv. exists pub, sval. split; [exact Hv|]. intro m'. reflexivity.
   Qed.
 
-  Lemma gpg_verify_other_msg : forall sig key m,
-    gpg_verify sig_ok now_s sig key m = Ok true ->
-    exists tok sval, sig_ok tok m sval = true /\
-                     forall m', gpg_verify sig_ok now_s sig key m' = Ok (sig_ok tok m' sval).
-  Proof.
-    intros sig key m H. unfold gpg_verify in *.
-    destruct (jstr_of (jget S_keyid sig)) as [skid|]; [|discriminate H].
-    destruct (jstr_of (jget S_keyid key)) as [mkid|]; [|discriminate H].
-    destruct (jstr_of (jget S_signature sig)) as [sv|]; [|discriminate H].
-    destruct (jstr_of (jget S_other_headers sig)) as [hdr|]; [|discriminate H].
-    match type of H with context [sig_ok (fst ?x) _ ?v] => set (sel := x) in *; set (sval := v) in * end.
-    exists (fst sel), sval.
-    destruct (jget S_creation_time (snd sel)) as [[| |c| | | |]|];
-      try (injection H as Hv; split; [exact Hv|intro m'; reflexivity]).
-    destruct (jget S_validity_period (snd sel)) as [[| |v| | | |]|];
-      try (injection H as Hv; split; [exact Hv|intro m'; reflexivity]).
-    match type of H with (if ?c then _ else _) = _ => destruct c end; [discriminate H|].
-    injection H as Hv. split; [exact Hv|intro m'; reflexivity].
-  Qed.
-
   Lemma vsig_metablock_edit : forall sigs p p' key,
     ideal_sigs ->
     wf_json (payload_asdict p) = true -> wf_json (payload_asdict p') = true ->
@@ -450,9 +460,9 @@ Section Gate.
     destruct (has S_signature sig && has S_other_headers sig).
     - destruct shape; [|discriminate H].
       bind_inv H ok Hok. destruct ok; [|discriminate H].
-      destruct (gpg_verify_other_msg _ _ _ Hok) as [tok [sval [Hv Hother]]].
+      destruct (gpg_verify_other_msg _ _ _ Hok) as [tok [sv [hdr [_ [_ [Hv Hother]]]]]].
       rewrite (Hother msg'). cbn [bind].
-      destruct (sig_ok tok msg' sval) eqn:Hv'; [|eexists; reflexivity].
+      destruct (sig_ok tok msg' (gpg_sig_value sv hdr)) eqn:Hv'; [|eexists; reflexivity].
       exfalso. apply Hdiff. exact (Hideal _ _ _ _ Hv' Hv).
     - destruct shape; [discriminate H|].
       destruct (has S_sig sig); [|eexists; reflexivity].
